@@ -38,7 +38,7 @@ class Taint:
     def __init__(self, facts):
         self.F = facts
         self.params = set()      # (fn path, param index)
-        self.fields = set(TAINTED_FIELD_SEED)   # field names
+        self.fields = {(None, n) for n in TAINTED_FIELD_SEED} | {("renetcode::client::NetcodeClient", "connect_token")}   # (adt path, field name)
         for p, f in facts.fns.items():
             for suf, names in ENTRY_HOSTILE.items():
                 if p.endswith("::" + suf) or p.endswith(suf):
@@ -52,7 +52,8 @@ class Taint:
         if k == "param": return (f.path, o[1]) in self.params
         if k == "const" or k == "fn" or k == "undef" or k == "rec": return False
         if k == "field":
-            if not str(o[2]).isdigit() and str(o[2]) in self.fields: return True     # tuple positions are not names: only the base decides
+            adt = o[3] if len(o) > 3 else None
+            if not str(o[2]).isdigit() and ((adt, str(o[2])) in self.fields or (adt is None and any(n_ == str(o[2]) for a_, n_ in self.fields))): return True   # tuple positions are not names
             return self.is_tainted(f, o[1], depth + 1)
         if k == "call":
             if SOURCE_CALL.search(o[1]): return True
@@ -83,10 +84,11 @@ class Taint:
                         rv = s["rv"]
                         try:
                             if s["place"]["proj"] and s["place"]["proj"][-1]["k"] == "field" and s["place"]["proj"][-1].get("name"):
-                                nm = s["place"]["proj"][-1]["name"]
-                                if nm not in self.fields and not str(nm).isdigit() and self.is_tainted(f, f._origin_of_def(s, 0)): self.fields.add(nm)
+                                nm = (s["place"]["proj"][-1].get("adt"), s["place"]["proj"][-1]["name"])
+                                if nm not in self.fields and not str(nm[1]).isdigit() and self.is_tainted(f, f._origin_of_def(s, 0)): self.fields.add(nm)
                             if rv["k"] == "aggr" and rv.get("fnames"):
-                                for nm, op in zip(rv["fnames"], rv["fields"]):
-                                    if nm and not str(nm).isdigit() and nm not in self.fields and self.is_tainted(f, f.origin_of_operand(op)): self.fields.add(nm)
+                                for nm_, op in zip(rv["fnames"], rv["fields"]):
+                                    nm = (rv.get("path"), nm_)
+                                    if nm_ and not str(nm_).isdigit() and nm not in self.fields and self.is_tainted(f, f.origin_of_operand(op)): self.fields.add(nm)
                         except RecursionError: pass
             if (len(self.params), len(self.fields)) == before: break
